@@ -57,6 +57,14 @@ for _p, _w in (('C10', 'clauses C10_frame / C10_future (Element) and C10_frame (
                ('C19', 'clauses C19_class / C19_quiet at every recorded step of both campaigns')):
     CHECKS[_p] = elem(_p, _w + '; also every step of the Values campaign', 'DESIGN.md 3.3, 3.4, 6 ' + _p)
 CHECKS['C18'] = elem('C18', 'clauses C18_free (an unchecked element never raises for structural reasons and keeps insertion order) and C18_same (for valid in-order words the unchecked twin emits the same bytes as the checked one)', 'DESIGN.md 3.3, 6 C18')
+CHECKS['C17'] = dict(
+   technique='TLA+ spec Writer.tla model-checked by TLC (write() protocol over every failing node / prior file state / failing open; the pre-repair ordering is the negative control); WriterGen enumerates fault scenarios, the harness executes write()/import/parse under 4 default text encodings, WriterTrace validates every recorded call (bytes before/after, expected bytes, locale twins); effect order vs. the model reported as drift',
+   level=('model_checking', 'Writer.tla: AllOrNothing and Declared hold in every state for the validate-first design (all failing nodes, prior states, failing open) and TLC produces the counterexample for the open-first design. On the code: all 11 x 4 x 2 fault scenarios TLC enumerates (each node of a 3-level score failing in turn by missing child or missing required attribute, destination absent / empty / other content / unopenable, intelligent_choice on/off) are executed under UTF-8, ASCII (real locales), Latin-1 and cp1252 (simulated) defaults and each recorded call is validated by TLC: a raising write leaves the bytes untouched, a returning one leaves exactly Utf8(declaration + to_string()), import / parse / to_string behave identically under every default encoding. Exhaustive over the enumerated scenarios.', 'DESIGN.md 3.6, 6 C17'),
+   note='trusted: sha-256 of file bytes as projection, the builtins.open wrapper that simulates Latin-1 / cp1252 defaults (only C and C.UTF-8 locales exist), TLC; open() failure provoked by a directory at the destination', thorough=True)
+CHECKS['C20'] = dict(
+   technique='TLA+/PlusCal spec LazyInit.tla model-checked by TLC against AtomicCache (refinement, all interleavings; publish-then-fill is the negative control); schedules <<A, pre-emption line i, B>> executed on the real library in forked pristine processes (sys.settrace), LazyTrace validates every recorded schedule against the atomic cache (each thread == its solo run) and reports partial tables as model drift',
+   level=('model_checking', 'LazyInit.tla (lazily filled class-level tables with nested group resolution, 2-3 threads, every interleaving): build-then-publish refines AtomicCache (every call returns the complete table, a published slot never changes); publish-then-fill is refuted by TLC. On the code: thread A is pre-empted once at an executed library line of its first use of its classes and thread B runs to completion in the gap; quick = every 2nd line inside lazily-initialising frames + every 40th other line of 5 workload pairs (about 9,000 schedules), thorough = every executed line of 10 pairs; TLC validates that both threads observe exactly what they observe alone.', 'DESIGN.md 3.7, 6 C20'),
+   note='trusted: CPython GIL semantics, sys.settrace line events as pre-emption points, fork for pristine process state, TLC. One pre-emption and two threads on the code; all interleavings only on the model.', thorough=True)
 NA_REASON = 'check not built yet (construction in progress; DESIGN.md section 7 gives the order)'
 
 
